@@ -1,15 +1,17 @@
 (** * Property C09 — tables regenerated from dd/bdd.py on every run: which
       methods the retry decorator wraps, and the reordering thresholds.
       A change of either in the source changes [Generated/PyConsts.v] and
-      breaks these obligations.  ([_quantify_vars] is the decorated worker of
-      the public [quantify], which first reads its iterable argument into a
-      set: the retry must not see an exhausted iterator.) *)
+      breaks these obligations.  ([_quantify_vars] / [_cofactor_vars] are the
+      decorated workers of the public [quantify] / [cofactor], which first read
+      their argument into a set / dict of variable NAMES: the retry must not
+      see an exhausted iterator, nor read keys given as levels against the
+      new variable order.  In the model: [quantify_names], [cofactor_names].) *)
 From DD Require Import DecoratedTable.
 Local Open Scope string_scope.
 
 Theorem C09_decorated_methods :
   py_decorated =
-  ["_quantify_vars"; "add_expr"; "cofactor"; "compose"; "cube"; "ite"; "reduction"; "rename"; "var"].
+  ["_cofactor_vars"; "_quantify_vars"; "add_expr"; "compose"; "cube"; "ite"; "reduction"; "rename"; "var"].
 Proof. exact decorated_table. Qed.
 Print Assumptions C09_decorated_methods.
 
@@ -22,8 +24,18 @@ Print Assumptions C09_thresholds.
 Theorem C09_model_is_decorated :
   (∀ g u v, ∃ body, ite g u v = try_to_reorder body) ∧
   (∀ n, ∃ body, var n = try_to_reorder body) ∧
-  (∀ u b vs, ∃ body, cofactor u b vs = try_to_reorder body) ∧
-  (∀ u b q fa, ∃ body, quantify u b q fa = try_to_reorder body) ∧
+  (∀ u vs, ∃ body, cofactor_names u vs = try_to_reorder body) ∧
+  (∀ u q fa, ∃ body, quantify_names u q fa = try_to_reorder body) ∧
+  (∀ u vs, cofactor u true vs = cofactor_names u vs) ∧
+  (∀ u vs, cofactor u false vs =
+     (lv <- map_to_level_dict false vs ;;
+      nv <- mapM (fun '(l, a) => v <- var_at_level l ;; ret (v, a)) (map_to_list lv) ;;
+      cofactor_names u nv)) ∧
+  (∀ u q fa, quantify u true q fa = quantify_names u q fa) ∧
+  (∀ u q fa, quantify u false q fa =
+     (ls <- map_to_level_set false q ;;
+      names <- mapM var_at_level (elements ls) ;;
+      quantify_names u names fa)) ∧
   (∀ f sub, ∃ body, compose f sub = try_to_reorder body) ∧
   (∀ u d, ∃ body, rename u d = try_to_reorder body) ∧
   (∀ d, ∃ body, cube d = try_to_reorder body) ∧
